@@ -123,7 +123,7 @@ fn tree_step_at(with_child: bool, tag: bool, cx: i32, cy: i32) {
     std::mem::forget(probe);
 }
 
-//@ harness: o16_1_tag_innermost props=C16 tier=thorough obl=O16.1 timeout=3000 mem=52
+//@ harness: o16_1_tag_innermost props=C16 tier=stretch obl=O16.1 timeout=3000 mem=52
 //@ desc: nested pre-built tree (outer rect 20x10 cells, inner rect 10x4 cells inside it) and a {tag} carrier at three representative cells - inside the inner box (row symbolic 4..6), inside the outer box only, outside both: one step of enclose_deep_first gives the tag to the INNERMOST enclosing rect only (children are tried before the node itself), adds no node; outside it returns false and changes nothing.  The position is concrete/one-dimensional here because the fully symbolic nested step ran out of 20 GB; all positions are covered for a single node by o16_1_tag_single and for the fit test by o10_4_can_fit_*; as_css_tag stubbed (a filled one-cell rect is the designated tag carrier; the real one needs the pom parser)
 //@ encodes: FragmentTree::enclose_deep_first, FragmentTree::can_fit, Fragment::can_fit, Rect::bounds
 #[kani::proof]
@@ -155,7 +155,7 @@ fn o16_1_tag_single() {
     tree_step(false, true);
 }
 
-//@ harness: o10_3_tree_step_plain props=C10,C16 tier=thorough obl=O10.3 timeout=3000 mem=52
+//@ harness: o10_3_tree_step_plain props=C10,C16 tier=stretch obl=O10.3 timeout=3000 mem=52
 //@ desc: same nested tree, an ordinary one-cell fragment at the same three representative cells: one step of enclose_deep_first adds it exactly once, under the innermost rect that encloses it, changes no css_tag; outside both it returns false and the tree is unchanged (fragments are neither lost nor duplicated)
 //@ encodes: FragmentTree::enclose_deep_first, FragmentTree::can_fit
 #[kani::proof]
